@@ -378,21 +378,21 @@ var c37Unicode = []string{
 }
 
 func c37GenPw(r *vhRng) []byte {
-	switch r.Intn(10) {
-	case 0, 1:
+	switch r.Intn(20) {
+	case 0, 1, 2, 3:
 		return []byte{}
-	case 2:
+	case 4:
 		return r.Bytes(1024)
-	case 3:
+	case 5:
 		return bytes.Repeat([]byte("a"), 1024)
-	case 4, 5:
+	case 6, 7, 8, 9, 10:
 		return []byte(c37Unicode[r.Intn(len(c37Unicode))])
-	case 6:
+	case 11, 12:
 		return r.Bytes(1 + r.Intn(4))
-	case 7:
+	case 13, 14:
 		return r.Bytes(r.Pick(31, 32, 33, 63, 64, 65, 127, 128, 129))
 	default:
-		return []byte("password" + strconv.Itoa(r.Intn(3)))
+		return []byte("Password" + strconv.Itoa(r.Intn(3)))
 	}
 }
 
